@@ -22,7 +22,6 @@ package main
 
 import (
 	"encoding/json"
-	"errors"
 	"flag"
 	"fmt"
 	"os"
@@ -448,14 +447,9 @@ func corr(args []string) {
 				return e
 			})
 			if err != nil {
-				// the known finding segment:batch-number-collision (a reused single-direction batch keeps
-				// its number) is the one legitimate failure; anything else counts against the run
-				var asc ach.ErrFileBatchNumberAscending
-				if errors.As(err, &asc) {
-					m.stats["segment:known-number-collision"]++
-				} else {
-					m.stats["segment:error"]++
-				}
+				// segment:batch-number-collision is fixed in the repository (split batches keep the
+				// number of their source): every error on a generated valid input counts against the run
+				m.stats["segment:error"]++
 			} else {
 				for k, g := range []*ach.File{cf, df} {
 					if g != nil && (len(g.Batches) > 0 || len(g.IATBatches) > 0) {
